@@ -4,6 +4,13 @@ EXTENDS FactStore
 MCKeys == {<<"a">>, <<"a", "">>}
 MCKey1 == {<<"a">>}
 MCVal(s, c) == {10 * s + c}
+(* every location / every pair of distinct locations *)
+Locs(sg) == UNION {{<<s, i>> : i \in 1..Len(sg[s].cmds)} : s \in 1..Len(sg)}
+AllPairs(sg) == {<<a[1], a[2], b[1], b[2]>> : a \in Locs(sg), b \in Locs(sg)}
+(* simulation: the two newest segments; merges of the newest head with a command of the one before *)
+NearLocs(sg) == UNION {{<<s, i>> : i \in 1..Len(sg[s].cmds)} : s \in {t \in 1..Len(sg) : t >= Len(sg) - 1}}
+NearPairs(sg) == IF Len(sg) < 2 THEN {}
+                 ELSE {<<Len(sg), Len(sg[Len(sg)].cmds), Len(sg) - 1, i>> : i \in 1..Len(sg[Len(sg) - 1].cmds)}
 CONSTANTS MaxSegs,     \* segments written
           MaxCmds,     \* commands per perspective / segment
           MaxCur,      \* pending updates
@@ -46,7 +53,8 @@ SimBound ==
   /\ Len(cps') <= MaxCps
   /\ (last'.o \in {"insert", "delete"} => Len(per.cmds) < MaxCmds)
   /\ (last'.o = "open" => ~per.open /\ last'.s >= Len(segs) - 1)
-  /\ (last'.o = "open_facts" => ~fper.open /\ ~per.open /\ last'.s = Len(segs))
+  /\ (last'.o = "open_facts" => ~fper.open /\ ~per.open /\ braid.id = 0 /\ last'.s = Len(segs))
+  /\ (last'.o = "open_merge" => ~per.open /\ last'.s >= Len(segs) - 1 /\ last'.v >= Len(segs) - 1)
   /\ (last'.o \in {"f_insert", "f_delete"} => Cardinality(DOMAIN fper.fp.m) < MaxFUps)
   /\ (NoErr => last'.r = "ok")
   /\ (Len(hist') = SimDepth => last'.n = "")       \* few candidates for the last (emitting) step
@@ -69,8 +77,10 @@ CtxHist(c) ==
                     H("add_command", NoX, 0, 0, 0), H("create", NoX, 0, 1, 2), H("open", NoX, 0, 1, 1)>>
 CtxSegs(c) ==
   CASE c = "A" -> <<>>
-    [] c = "B" -> <<[prior |-> NoLoc, cmds |-> << <<<<XA, 11>>>> >>, facts |-> 1, pf |-> 0, disc |-> {}]>>
-    [] c = "C" -> <<[prior |-> NoLoc, cmds |-> << <<<<XA, 11>>>>, <<<<XA, 0>>>> >>, facts |-> 1, pf |-> 0, disc |-> {}]>>
+    [] c = "B" -> <<[prior |-> NoLoc, cmds |-> << <<<<XA, 11>>>> >>, facts |-> 1, pf |-> 0, disc |-> {},
+                    merge |-> FALSE, mbase |-> FlatEmpty]>>
+    [] c = "C" -> <<[prior |-> NoLoc, cmds |-> << <<<<XA, 11>>>>, <<<<XA, 0>>>> >>, facts |-> 1, pf |-> 0, disc |-> {},
+                    merge |-> FALSE, mbase |-> FlatEmpty]>>
 CtxIdx(c) ==
   CASE c = "A" -> <<>>
     [] c = "B" -> <<[prior |-> 0, depth |-> 1, m |-> (XA :> 11)]>>
@@ -80,8 +90,8 @@ RevInit ==
     /\ idx = CtxIdx(c) /\ segs = CtxSegs(c)
     /\ per = IF c = "A" THEN [Closed EXCEPT !.open = TRUE]
              ELSE [open |-> TRUE, parent |-> <<1, 1>>, fp |-> NewFp(PriorAtIn(CtxSegs(c), 1, 1)),
-                   cmds |-> <<>>, cur |-> <<>>, disc |-> {}]
-    /\ fper = FClosed /\ cps = <<>>
+                   cmds |-> <<>>, cur |-> <<>>, disc |-> {}, merge |-> FALSE, mbase |-> FlatEmpty]
+    /\ fper = FClosed /\ braid = NoBraid /\ cps = <<>>
     /\ last = Rec("init", NoX, 0, 0, 0, 0, "ok", ObsIn(CtxSegs(c), per, FClosed))
     /\ hist = CtxHist(c)
 RevBound ==
@@ -96,9 +106,13 @@ EmitRevKey == RevBound /\ (last'.o \in {"revert", "open", "write", "create"} => 
 (* bare fact perspectives over the canned contexts: open at any location, a few inserts and
    deletes, write_facts *)
 FactsBound == /\ Bound
-              /\ last'.o \in {"open_facts", "f_insert", "f_delete", "write_facts"}
-              /\ (last'.o = "open_facts" => ~fper.open)
-              /\ last.o # "write_facts"                      \* one written index per behaviour
+              /\ last'.o \in {"open_facts", "f_insert", "f_delete", "write_facts", "open_merge",
+                              "insert", "delete", "add_command", "write", "open"}
+              /\ (last'.o = "open_facts" => ~fper.open /\ braid.id = 0 /\ ~per.merge /\ Len(segs) = 1)
+              /\ (last.o = "write_facts" => last'.o = "open_merge")   \* the braid goes into a merge perspective
+              /\ (last'.o \in {"insert", "delete", "add_command", "write"} => per.merge)
+              /\ (last'.o = "open" => last.o = "write" /\ last'.s = Len(segs))
+              /\ last.o # "open"                                      \* nothing after the reopening
 EmitFacts == FactsBound /\ EmitStep
 
 EmitSim == (Len(hist) = SimDepth /\ last.n = "") => PrintT("REPLAY " \o ToJson([h |-> hist]))
